@@ -4,7 +4,7 @@
 EXTENDS TraceKit, ChunkStoreContract
 
 Ids == 0..63
-NoRec == [live |-> FALSE, b |-> -100, dl |-> 0, inst |-> 0]
+NoRec == [live |-> FALSE, b |-> -100, dl |-> 0, inst |-> 0, nf |-> FALSE]
 
 VARIABLES l, viol, poisoned,
           now, rec, held, lastSweep, inst, persistent, crashed, nchecked
@@ -25,7 +25,8 @@ DiskClauses(e, r, t, ls, h, strict) ==
     \cup (IF FileNotOutliving(r, t, ls, Files(e)) THEN {}
           ELSE {IF \E f \in Files(e) : f[1] \in Ids /\ ~(t < r[f[1]].dl \/ ls < r[f[1]].dl) /\ r[f[1]].inst < inst
                 THEN "C04.file-outlives-chunk/earlier-instance" ELSE "C04.file-outlives-chunk"})
-    \cup (IF ~strict \/ FilePresent(r, t, h, Files(e)) THEN {} ELSE {"C04.file-missing-while-live"})
+    \* a store whose write failed (nf) may have no file; if it has one, the content clause above still demands the exact bytes
+    \cup (IF ~strict \/ FilePresent(r, t, {c \in h : ~r[c].nf}, Files(e)) THEN {} ELSE {"C04.file-missing-while-live"})
     \cup (IF UnlinkWiped(Unl(e)) THEN {} ELSE {"C04.unlink-without-overwrite"})
 
 Step(e) ==
@@ -38,11 +39,11 @@ Step(e) ==
         \* an operation starts (only matters when a crash follows): a begun put fixes the
         \* chunk's bytes; its deadline is not yet observable, take "far" until the put returns
         /\ IF e.what = "put"
-             THEN rec' = [rec EXCEPT ![e.c] = [live |-> TRUE, b |-> e.b, dl |-> 2000000000, inst |-> inst]]
+             THEN rec' = [rec EXCEPT ![e.c] = [live |-> TRUE, b |-> e.b, dl |-> 2000000000, inst |-> inst, nf |-> FALSE]]
              ELSE UNCHANGED rec
         /\ UNCHANGED <<viol, poisoned, now, held, lastSweep, inst, persistent, crashed, nchecked>>
     [] e.op = "put" ->
-        LET r2 == [rec EXCEPT ![e.c] = [live |-> TRUE, b |-> e.b, dl |-> e.dl, inst |-> inst]]
+        LET r2 == [rec EXCEPT ![e.c] = [live |-> TRUE, b |-> e.b, dl |-> e.dl, inst |-> inst, nf |-> (Fld(e, "wfail", 0) = 1)]]
             h2 == held \cup {e.c}
             bad == (IF e.dl > e.t /\ (e.ttl > 0 => e.dl = e.t + e.ttl) THEN {} ELSE {"C01.put-deadline"})
                    \cup DiskClauses(e, r2, e.t, lastSweep, h2, ~crashed)
